@@ -18,7 +18,7 @@ COMMON_ASSUME = [
 
 PROPS = {
     "C02": {
-        "rules": ["R-IDGUARD", "R-ACCEPT", "R-ALPHAGUARD", "R-NOTFOUND", "R-SCANEXIT", "R-PURE-BASIC"],
+        "rules": ["R-IDGUARD", "R-ACCEPT", "R-ALPHAGUARD", "R-NOTFOUND", "R-SCANEXIT", "R-PURE-BASIC", "R-BYTEINDEX", "R-SENTINEL"],
         "explanation": "CFG edge-dominance rules: every use of the id in the 13 extract overrides is dominated by both range tests and the "
                        "failing path stores length 0 and returns NULL; in the six hash lookups an ID is returned only under a successful full "
                        "comparison, each probe is preceded by the occupied-cell test, the probe loop is bounded by the table size; XBW accepts only "
@@ -28,12 +28,14 @@ PROPS = {
                     "no acceptance without comparison; empty cell ends the probe; bounded probe loop; XBW terminator test (R-ACCEPT)",
                     "alphabet test before occ[] for every pattern byte, in the function or by construction at every call site (R-ALPHAGUARD)",
                     "not-found protocol between search helpers and their callers (R-NOTFOUND)", "every in-bucket scan has the early exit its four siblings have (R-SCANEXIT)",
-                    "locate/extract keep no state between calls (R-PURE-BASIC)"],
+                    "locate/extract keep no state between calls (R-PURE-BASIC)",
+                    "tables indexed by an arbitrary byte value have >= 256 entries on every path that creates them, loaders included (R-BYTEINDEX)",
+                    "the hash lookups' all-ones `not found` sentinel is produced at the width of their return type, so locate's `search()+1` wraps to NORESULT (R-SENTINEL)"],
         "not_decided": ["that the comparison routines compare correctly", "reads inside decoders for absent strings in front-coded buckets (bounded only by run-time offsets)"],
         "assumptions": COMMON_ASSUME,
     },
     "C04": {
-        "rules": ["R-NOTFOUND", "R-WINDOW", "R-ALPHAGUARD", "R-BUCKET", "R-FMMAP", "R-SCANEXIT", "R-PURE-PREFIX", "R-CMPSIGN", "R-BSEARCH", "R-SCANSIGN", "R-BISECT"],
+        "rules": ["R-NOTFOUND", "R-WINDOW", "R-ALPHAGUARD", "R-BUCKET", "R-FMMAP", "R-SCANEXIT", "R-PURE-PREFIX", "R-CMPSIGN", "R-BSEARCH", "R-SCANSIGN", "R-BISECT", "R-IDRANGE"],
         "explanation": "The structural half of prefix search: the not-found protocol of the in-bucket search helpers (all five front-coding kinds), "
                        "agreement between the located ID range and the window handed to the string iterator under that iterator class's own "
                        "first/end protocol (symbolic count = right-left+1, incl. the empty range), alphabet guard for absent bytes.",
@@ -43,7 +45,8 @@ PROPS = {
                     "locatePrefix/extractPrefix and the iterators they return write no dictionary state, static or borrowed memory: the result is a function of dictionary and pattern only (R-PURE-PREFIX)",
                     "three-way string comparators are oriented one way on all their paths (sign polarity of the pattern bytes in every returned value, R-CMPSIGN)",
                     "binary searches move the bound the comparator's orientation dictates, and in-bucket scans give up only once the stored string is larger (R-BSEARCH, R-SCANSIGN)",
-                    "the left/right boundary bisections of prefix search cover the whole interval the main binary search left open, with the step forms of a closed resp. half-open interval (R-BISECT)"],
+                    "the left/right boundary bisections of prefix search cover the whole interval the main binary search left open, with the step forms of a closed resp. half-open interval (R-BISECT)",
+                    "the contiguous ID iterator yields exactly [left,right] and nothing for the (NORESULT,NORESULT) pair (R-IDRANGE)"],
         "not_decided": ["correctness of the boundary binary searches and in-bucket scans on actual data (value-level)"],
         "assumptions": COMMON_ASSUME,
     },
@@ -79,7 +82,7 @@ PROPS = {
         "assumptions": COMMON_ASSUME,
     },
     "C07": {
-        "rules": ["R-STATE", "R-INITCOVER", "R-EXTENT", "R-KILLUSE", "R-DANGLING", "R-ALPHAGUARD", "R-DEDUP", "R-IDGUARD", "R-SHIFT", "R-CLAMP", "R-ZEROFILL", "R-GROW", "R-SLACK", "R-ALLOCFORM", "R-LOCKSET"],
+        "rules": ["R-STATE", "R-INITCOVER", "R-EXTENT", "R-KILLUSE", "R-DANGLING", "R-ALPHAGUARD", "R-DEDUP", "R-IDGUARD", "R-SHIFT", "R-CLAMP", "R-ZEROFILL", "R-GROW", "R-SLACK", "R-ALLOCFORM", "R-LOCKSET", "R-BYTEINDEX"],
         "explanation": "Structural preconditions of memory safety, each a necessary condition with confirmed instances: no operation consults state the "
                        "creation path never set, saved extents equal allocated extents, nothing reachable from a dictionary is freed by an operation or "
                        "left dangling by a loader, pattern bytes are range-checked before indexing, duplicate iterators have their sentinel, ids are "
@@ -88,7 +91,8 @@ PROPS = {
                     "no use after free across API histories, no dangling loader state (R-KILLUSE, R-DANGLING)",
                     "index guards: alphabet, id range, sentinel (R-ALPHAGUARD, R-IDGUARD, R-DEDUP)", "no undefined shift (R-SHIFT)", "clamped bucket size (R-CLAMP)",
                     "growth guards re-test after growing (R-GROW, loop form)", "PFC guard slack covers the largest appended extent for every length / shared prefix (R-SLACK)", "release form matches allocation form for every pointer field (R-ALLOCFORM)",
-                    "the shared parts vector that the producer grows is indexed by workers only under its mutex: no access to a reallocated buffer (R-LOCKSET)"],
+                    "the shared parts vector that the producer grows is indexed by workers only under its mutex: no access to a reallocated buffer (R-LOCKSET)",
+                    "tables indexed by an arbitrary byte value have >= 256 entries on every path that creates them, loaders included (R-BYTEINDEX)"],
         "not_decided": ["all index arithmetic over decoded data (bucket scans, chunk decoding with b_remain, expandRule recursion depth, scratch buffers sized "
                         "from maxlength/maxcomplength), buffer growth estimates, suffix sorting on tiny inputs, termination: a pass means the structural "
                         "preconditions hold, not that the library is memory safe"],
@@ -168,14 +172,15 @@ PROPS = {
         "assumptions": COMMON_ASSUME,
     },
     "C13": {
-        "rules": ["R-OUTLEN", "R-WINDOW", "R-DEDUP", "R-DUPSKIP", "R-FMMAP", "R-STUB", "R-QUERYPURE"],
+        "rules": ["R-OUTLEN", "R-WINDOW", "R-DEDUP", "R-DUPSKIP", "R-FMMAP", "R-STUB", "R-QUERYPURE", "R-IDRANGE"],
         "explanation": "Iterator protocol rules: every next() stores the length on every path to a non-null return and advances a field that "
                        "hasNext() reads (or consumes its work list) on every path; windows given at every extractTable/extractPrefix site match "
                        "the class protocol; duplicate-skipping iterators never read past their array (sentinel + extent); iterator steps write "
                        "only iterator-owned memory.",
         "decided": ["length reported and cursor advanced on every path (R-OUTLEN)", "window = numElements / right-left+1 at every construction site (R-WINDOW)",
                     "sentinel and extent for duplicate skipping (R-DEDUP)", "XBW::extractTable is an effect-free stub (R-STUB)",
-                    "iterator steps do not write borrowed dictionary storage (R-QUERYPURE)"],
+                    "iterator steps do not write borrowed dictionary storage (R-QUERYPURE)",
+                    "the contiguous ID iterator yields exactly [left,right] and nothing for the (NORESULT,NORESULT) pair (R-IDRANGE)"],
         "not_decided": ["that the strings produced are the right ones and NUL-terminated after decoding (value-level)"],
         "assumptions": COMMON_ASSUME,
     },
@@ -200,7 +205,7 @@ PROPS = {
         "assumptions": COMMON_ASSUME,
     },
     "C08": {
-        "rules": ["R-SAVEPURE", "R-KILLUSE", "R-DANGLING", "R-TAGSELF", "R-RESAVE", "R-EXTENT", "R-PADDING", "R-ZEROFILL", "R-NONDET", "R-STATE"],
+        "rules": ["R-SAVEPURE", "R-KILLUSE", "R-DANGLING", "R-TAGSELF", "R-RESAVE", "R-EXTENT", "R-PADDING", "R-ZEROFILL", "R-NONDET", "R-STATE", "R-INITEXTENT"],
         "explanation": "Interprocedural effect analysis (MOD/FREE summaries over access-path regions with pointer roots, fixpoint over "
                        "the call graph, virtual calls by class hierarchy) shows that the call closure of every save in the persisted cone "
                        "writes only the stream and frees nothing; tag identity, element-to-field restoration and extent/padding rules show "
@@ -211,13 +216,14 @@ PROPS = {
                     "every image element is restored into the field save writes it from (R-RESAVE)",
                     "no over-read at save (R-EXTENT), no padding bytes in the image (R-PADDING)",
                     "bit-packed arrays are filled before read-modify-write stores (R-ZEROFILL); no clock/random/pid dependence on build or save paths (R-NONDET)",
-                    "save on a loaded object reads only state the loader set (R-STATE)"],
+                    "save on a loaded object reads only state the loader set (R-STATE)",
+                    "saved arrays allocated uninitialised are written over their whole extent wherever all writes are whole-range writes (R-INITEXTENT)"],
         "not_decided": ["that every element of every saved array was initialised by the builder (value/coverage reasoning per loop)",
                         "byte equality of two builds from the same input (needs R-NONDET over the builders; value-level beyond that)"],
         "assumptions": COMMON_ASSUME + ["pointer roots are tracked flow-insensitively per function; a store through a pointer loaded from a dictionary field is attributed to that field"],
     },
     "C09": {
-        "rules": ["R-SLOT", "R-JOIN", "R-PARAMFLOW", "R-WORKERPURE", "R-NONDET", "R-CV"],
+        "rules": ["R-SLOT", "R-JOIN", "R-PARAMFLOW", "R-WORKERPURE", "R-NONDET", "R-CV", "R-INITEXTENT"],
         "explanation": "Schedule-independence argued structurally: every worker-visible input is fixed before the task is queued and every "
                        "worker-written output goes to a slot reserved before queuing (R-SLOT); the constructor cannot return, free the input or "
                        "let captures die before wait -> stop -> join on any CFG path (R-JOIN); thread_count reaches only the pool size "
@@ -228,7 +234,8 @@ PROPS = {
                     "wait/stop/join on all paths, input and captures outlive the workers (R-JOIN)",
                     "thread_count -> pool size only; cut_size -> cut decision and header only (R-PARAMFLOW)",
                     "task closure: no global/static write, no read of a written global, no store into the input text (R-WORKERPURE)",
-                    "build/save closure free of nondeterminism sources (R-NONDET)", "completion wait: updates under the waiter's mutex, followed by notify (R-CV)"],
+                    "build/save closure free of nondeterminism sources (R-NONDET)", "completion wait: updates under the waiter's mutex, followed by notify (R-CV)",
+                    "saved arrays allocated uninitialised are written over their whole extent wherever all writes are whole-range writes (R-INITEXTENT); an uncovered tail makes the image depend on the allocator's history, i.e. on the schedule"],
         "not_decided": ["value-level determinism of the sequential block builder (shared with C08)"],
         "assumptions": COMMON_ASSUME + ["new/malloc are thread-safe; std streams are internally synchronised"],
     },
